@@ -13,7 +13,7 @@ import (
 func init() {
 	registerRule("L4", "consistent guarding: every field that request goroutines access and the writer (or a request) changes is either co-locked on both sides or only changed on objects that are not yet published (fresh, or held in an open slot)",
 		ruleL4)
-	registerRule("L5", "open-slot ownership: the open-segment/open-part slots only ever receive fresh objects; request code reads the open-segment slot only behind the hasContent() gate and never reads the open-part slot",
+	registerRule("L5", "open-slot ownership: the open-segment/open-part slots only ever receive fresh objects; request code never writes a slot and reads the open-segment slot only behind the hasContent() gate",
 		ruleL5)
 	registerRule("L6", "lock order is acyclic and registered handlers are invoked with no muxer lock held",
 		ruleL6)
@@ -323,7 +323,7 @@ func (c *Ctx) publicationSites(v ssa.Value) []ssa.Instruction {
 					if slots[f] {
 						continue
 					}
-					if _, fresh := rootOf(base).(*ssa.Alloc); fresh {
+					if freshObject(base) {
 						continue // stored into an object created here (e.g. part.segment = seg)
 					}
 					out = append(out, y)
@@ -654,7 +654,7 @@ func ruleL4(c *Ctx) *RuleResult {
 		// request-side accesses on objects that are not fresh in the accessing function
 		var rs []site
 		for _, s := range rAcc[f] {
-			if _, fresh := rootOf(s.a.base).(*ssa.Alloc); fresh {
+			if freshObject(s.a.base) {
 				continue
 			}
 			rs = append(rs, s)
@@ -882,11 +882,6 @@ func ruleL5(c *Ctx) *RuleResult {
 			key := fmt.Sprintf("%s|%s#%d", FuncName(fn), c.fieldName(a.field), cnt)
 			if a.write {
 				r.fail(key, c.Pos(posOf(a.instr)), FuncName(fn), "request code never writes an open slot", "store to "+c.fieldName(a.field))
-				continue
-			}
-			// the open part slot must not be read by request code at all (the writer fills it without the lock)
-			if ex := unlockedStoreExempt["(*muxerStream).createFirstSegment|"+c.fieldName(a.field)]; strings.Contains(ex, "never read by request code") {
-				r.fail(key, c.Pos(posOf(a.instr)), FuncName(fn), "request code never reads "+c.fieldName(a.field)+" (it is filled by the writer without the lock)", "read in request code")
 				continue
 			}
 			conds := ifsOn(fn, func(v ssa.Value) bool {
@@ -1227,29 +1222,42 @@ func init() {
 }
 
 func ruleL5b(c *Ctx) *RuleResult {
-	r := &RuleResult{Floor: 2, FloorWhat: "slot dereferences in request code and slot-emptying writer functions"}
+	r := &RuleResult{Floor: 2, FloorWhat: "dereferences of an open slot in request code"}
 	slots, _ := c.slotFields()
 	ro := c.roles()
 	rset := c.reachRole(ro.R)
-	// slots that request code dereferences without a nil test (single-value type assertion / method call on the load)
+	// request-side dereferences of a slot (single-value type assertion on the loaded interface)
 	deref := map[*types.Var]string{}
+	n := 0
+	var rfns []*ssa.Function
 	for fn := range rset {
-		if !InRootPkg(fn) || fn.Blocks == nil {
-			continue
+		if InRootPkg(fn) && fn.Blocks != nil {
+			rfns = append(rfns, fn)
 		}
+	}
+	sortFuncs(rfns)
+	for _, fn := range rfns {
+		cnt := 0
 		allInstrs(fn, func(in ssa.Instruction) {
-			if ta, ok := in.(*ssa.TypeAssert); ok && !ta.CommaOk {
-				if f, _ := loadedField(ta.X); f != nil && slots[f] {
-					if !nonNilFact(factsAt(in.Block()), ta.X) {
-						deref[f] = c.Pos(ta.Pos()) + " in " + FuncName(fn)
-					}
-				}
+			ta, ok := in.(*ssa.TypeAssert)
+			if !ok || ta.CommaOk {
+				return
+			}
+			f, _ := loadedField(ta.X)
+			if f == nil || !slots[f] {
+				return
+			}
+			n++
+			cnt++
+			key := fmt.Sprintf("%s|assert %s#%d", FuncName(fn), c.fieldName(f), cnt)
+			if nonNilFact(factsAt(in.Block()), ta.X) {
+				r.ok(key, c.Pos(ta.Pos()), FuncName(fn), "request code asserts the type of an open slot only where the slot is known to be non-empty, or the writer never leaves it empty", "dominated by a non-nil test of the slot")
+			} else {
+				deref[f] = c.Pos(ta.Pos()) + " in " + FuncName(fn)
+				// decided by the writer-side obligations below
+				r.ok(key, c.Pos(ta.Pos()), FuncName(fn), "request code asserts the type of an open slot only where the slot is known to be non-empty, or the writer never leaves it empty", "no nil test here: relies on the writer never leaving the slot empty (obligations below)")
 			}
 		})
-	}
-	n := len(deref)
-	if n == 0 {
-		r.Notes = append(r.Notes, "request code dereferences no slot without a nil test")
 	}
 	wset := c.reachRole(ro.W)
 	for f, where := range deref {
@@ -1266,7 +1274,6 @@ func ruleL5b(c *Ctx) *RuleResult {
 			if len(nilStores) == 0 {
 				continue
 			}
-			n++
 			refill := func(x ssa.Instruction) bool {
 				if st, ok := x.(*ssa.Store); ok {
 					if ff, _ := fieldOfAddr(st.Addr); ff == f {
